@@ -53,6 +53,12 @@ pub fn is_terminator(op: &Operator) -> bool {
 }
 
 pub fn normalise<'a>(ops: &[DOp<'a>]) -> Vec<NOp<'a>> {
+    normalise_with(ops, true)
+}
+
+/// With `tail_calls_terminate == false`, code after `return_call*` is kept (as walrus does); used only
+/// where the judge has to describe what walrus's IR contains, never for the equivalence check.
+pub fn normalise_with<'a>(ops: &[DOp<'a>], tail_calls_terminate: bool) -> Vec<NOp<'a>> {
     let mut out = Vec::with_capacity(ops.len());
     let mut frames: Vec<Frame> = vec![Frame { kind: FrameKind::Func, has_else: false, dead: false }];
     // number of nested constructs opened while dead (skipped wholesale)
@@ -105,7 +111,8 @@ pub fn normalise<'a>(ops: &[DOp<'a>]) -> Vec<NOp<'a>> {
             }
             op => {
                 out.push(NOp { kind: NKind::Op(op.clone()), offset: d.offset, raw_index: i, depth: frames.len() - 1 });
-                if is_terminator(op) {
+                let term = is_terminator(op) && (tail_calls_terminate || !matches!(op, Operator::ReturnCall { .. } | Operator::ReturnCallIndirect { .. }));
+                if term {
                     if let Some(f) = frames.last_mut() {
                         f.dead = true;
                     }
